@@ -32,6 +32,7 @@ def alphabet(rng, a, mfs):
 class C05(PropBase):
     id = 'C05'
     partial_passes = 0.25
+    rx_only_passes = 0.4
     lean_modules = ['Isotp.Props.C05']
     agree = []
     theorems = ['Isotp.C05.processRx_no_raise']
